@@ -1,4 +1,4 @@
-"""C08 — memcpy/memmove/memset/memcmp/bcmp: self-containment and dispatch shape."""
+"""C08 — memcpy/memmove/memset/memcmp/bcmp: self-containment, dispatch shape, tiling argument (c08_shape)."""
 import re
 
 from ..engine.prov import const_value, strip_casts, walk, walk_deep, show
@@ -6,6 +6,7 @@ from ..engine.dtable import canon
 from ..engine.fold import fold
 from ..engine import panics
 from .c12 import mentions
+from . import c08_shape
 
 CONFIGS_QUICK = ["A"]
 CONFIGS_THOROUGH = ["A", "R", "X"]
@@ -16,7 +17,12 @@ EXPLANATION = (
     "(copy, copy_nonoverlapping, write_bytes, read_unaligned/write_unaligned, swap, slice copy/fill/clone/eq) - and no aggregate wider than a word is copied except the audited [u8; 8] read; "
     "C08.3 shape of the dispatch: memmove copies backward exactly when dest.wrapping_sub(src) < n, word paths are entered only under n >= WORD_COPY_THRESHOLD with WORD_COPY_THRESHOLD >= 2*WORD_SIZE, "
     "the head length is (-dest) & WORD_MASK forward and dest_end & WORD_MASK backward, bcmp forwards to memcmp, and each function returns its first argument (memcmp the byte difference). "
-    "NOT decided: byte-exact agreement with C for every length/alignment/overlap and the no-write-outside clause - value-level facts over ~10^5 combinations (bounded model checking or exhaustive testing territory, not static analysis).")
+    "C08.4-C08.7 a compositional tiling argument for every (n, alignment, overlap): on every path through copy_forward / copy_backward / set_bytes the leaf calls tile [0, n) - segment k starts where segment k-1 ended "
+    "(linear normal forms of the pointer arguments along the path) and the segment lengths sum to n; the drivers move no data themselves and never step against their direction; every leaf loop performs exactly one store per round through "
+    "its destination cursor of the element read through its source cursor (or the fill value), both cursors step by exactly one element in the routine's direction, forward loops store-then-advance and backward loops retreat-then-store, "
+    "and the loop runs exactly while the cursor is inside [dest, dest + n) - hence no byte outside the destination range is written and, with the memmove dispatch rule of C08.3, overlapping copies read every source byte before it is overwritten; "
+    "compare_bytes returns 0 only when the index reached n, otherwise (byte at s1+i) - (byte at s2+i), and the index starts at 0 and moves only past positions whose bytes compared equal. "
+    "NOT decided: the arithmetic facts the argument leans on ((-dest) & 7 < n under n >= 16, (n - head) & !7 <= n - head) are taken from the constants check in C08.3 rather than re-derived; behaviour of the generated machine code.")
 ASSUMPTIONS = ["#![no_builtins] keeps LLVM from recognising the loops as mem* idioms", "pointer read/write of a word-sized scalar lowers to a load/store, not to memcpy"]
 
 M = "tiny_start::symbols::mem::"
@@ -158,3 +164,4 @@ def run_one(ck, prog):
                     subs.append(e)
         ok = any(mentions(e[2], c.prov, lambda z: z[0] == "param" and z[1] == 1) and mentions(e[3], c.prov, lambda z: z[0] == "param" and z[1] == 2) for e in subs)
         ck.ob("C08.3", "memcmp|difference-of-first-mismatch", ok, fn=cb["path"], detail="memcmp must return (byte of s1) - (byte of s2) at the first mismatch (sign matters)")
+    c08_shape.check(ck, prog)
